@@ -34,6 +34,7 @@ def _sparse():
 class BinPackH(Harness):
     ENV = "BinPack"
     QUICK = ["BinPack@3x5x4x3x2x2"]
+    C01_EXTRA = ["BinPack@2x4x3x2x2x3"]     # container 2 x 2 x 3 (height > width), 2 items, 4 EMS slots: a coordinate normalised by the wrong dimension leaves [0, 1]
     THOROUGH = ["BinPack@3x4x4x3x2x2", "BinPack@2x5x4x3x3x2"]
     INVALID = "terminate"
     BMC = True
